@@ -169,6 +169,8 @@ func ruleEpochBumped(r *Run, rule string) {
 		if !uses {
 			continue
 		}
+		// epochs matter only while the tag is computed from the pc; a decode counter needs none
+		tk, _, _ := tagKind(w)
 		for _, f := range v.pkg.Syntax {
 			for _, d := range f.Decls {
 				fd, ok := d.(*ast.FuncDecl)
@@ -215,6 +217,10 @@ func ruleEpochBumped(r *Run, rule string) {
 							}
 						}
 					}
+				}
+				if tk == "counter" {
+					r.ok(rule, fmt.Sprintf("%s.%s:new-epoch", v.rel, declName(fd)), fd.Pos(), "tags are a decode counter: a redirect needs no new epoch")
+					continue
 				}
 				r.check(bumps, rule, fmt.Sprintf("%s.%s:new-epoch", v.rel, declName(fd)), fd.Pos(), "a redirect of the fetch unit starts a new sequence epoch unconditionally (IncSequenceID at the top level of the method)")
 			}
@@ -2417,5 +2423,114 @@ func ruleLatencyClassConstant(r *Run, rule string) {
 		}
 		walk(t)
 		r.check(!nonConst && len(seen) == 1, rule, key, op.pos["Run"], "%s: the flags that select the write-back latency are one constant pair on every successful outcome (seen: %v)", op.mnemonic, sortedKeys(seen))
+	}
+}
+
+// ---- the program-order tag (R03.29 / R04.19 / R01.18)
+
+// tagKind classifies risc.Context.SequenceID, the function whose result tags every decoded
+// instruction: "counter" — the result is a field plus a positive constant and that same value is
+// written back to the field (strictly increasing in decode order, whatever the pc);
+// "pc-stride" — the result mentions the pc parameter (pc + epoch*K); "other".
+func tagKind(w *World) (kind string, stride int64, pos token.Pos) {
+	fd, pkg := w.Method("risc", "Context", "SequenceID")
+	if fd == nil {
+		return "missing", 0, token.NoPos
+	}
+	in := newInterp(w)
+	t, err := in.FuncTerm(fd, pkg)
+	if err != nil {
+		return "other", 0, fd.Pos()
+	}
+	t = hoistAll(t)
+	if t.Op != "out" || len(t.Args) < 2 || len(t.Args[0].Args) != 1 {
+		return "other", 0, fd.Pos()
+	}
+	res := t.Args[0].Args[0]
+	mentionsParam := false
+	res.subst(func(x *Term) *Term {
+		if x.Op == "param" {
+			mentionsParam = true
+		}
+		if x.Op == "mul" && len(x.Args) == 2 {
+			for _, a := range x.Args {
+				if c, _, ok := a.constInt(); ok && c > 1 {
+					stride = c
+				}
+			}
+		}
+		return nil
+	})
+	if mentionsParam {
+		return "pc-stride", stride, fd.Pos()
+	}
+	// counter: res = add(const k>0, fld F) and the state writes F := res
+	if res.Op == "add" && len(res.Args) == 2 {
+		var k int64
+		var f *Term
+		for _, a := range res.Args {
+			if c, _, ok := a.constInt(); ok {
+				k = c
+			} else if a.Op == "fld" {
+				f = a
+			}
+		}
+		if k > 0 && f != nil {
+			wrote := false
+			t.Args[1].subst(func(x *Term) *Term {
+				if x.Op == "w" && len(x.Args) == 2 && x.Args[0].Key() == f.Key() && x.Args[1].Key() == res.Key() {
+					wrote = true
+				}
+				return nil
+			})
+			if wrote {
+				return "counter", 0, fd.Pos()
+			}
+		}
+	}
+	return "other", 0, fd.Pos()
+}
+
+// ruleTagMonotone: the tag given to an instruction at decode orders instructions by age: it
+// is strictly larger than every tag given before. A counter is; a tag computed from the pc with
+// a constant stride per epoch is only if every pc is below the stride, i.e. if something
+// rejects programs longer than stride/4 instructions.
+func ruleTagMonotone(r *Run, rule string) {
+	w := r.W
+	kind, stride, pos := tagKind(w)
+	key := "risc.(Context).SequenceID:monotone"
+	switch kind {
+	case "counter":
+		r.ok(rule, key, pos, "the tag is a counter incremented at every decode: strictly increasing in decode order")
+	case "pc-stride":
+		// a bound on the program length against the stride: a comparison of len(Instructions) (or of a pc) with a
+		// constant >= the stride… in Parse or in a variant's Run
+		bounded := false
+		for path, p := range w.Pkgs {
+			if !strings.HasPrefix(path, modPath) {
+				continue
+			}
+			for _, f := range p.Syntax {
+				ast.Inspect(f, func(n ast.Node) bool {
+					b, ok := n.(*ast.BinaryExpr)
+					if !ok || (b.Op != token.GTR && b.Op != token.GEQ && b.Op != token.LSS && b.Op != token.LEQ) {
+						return true
+					}
+					for _, pair := range [][2]ast.Expr{{b.X, b.Y}, {b.Y, b.X}} {
+						c, ok := constInt64(p.TypesInfo.Types[pair[1]])
+						if !ok || stride == 0 || c*4 > stride || c < 16 {
+							continue
+						}
+						if strings.Contains(types.ExprString(pair[0]), "Instructions") {
+							bounded = true
+						}
+					}
+					return true
+				})
+			}
+		}
+		r.check(bounded, rule, key, pos, "the tag is pc + epoch*%d: an instruction fetched after a backward redirect gets a smaller tag than an older in-flight instruction whose pc is >= %d, and nothing rejects programs of more than %d instructions", stride, stride, stride/4)
+	default:
+		r.undecided(rule, key, pos, "the tag function is of an unrecognised form (%s)", kind)
 	}
 }
